@@ -41,6 +41,23 @@ CHECKS = {
              "return value, cardinality, emptiness, array export, iteration (order/duplicates), membership probes and "
              "operand immutability after every step; seeded 40-step histories cross 4096 repeatedly.",
         ref="DESIGN.md 4/C08", technique="TLA+ refinement model (TLC exhaustive) + TLC-enumerated histories replayed on the code + stateful TLC trace validation"),
+    "C09": dict(
+        text="Packed.tla states the layout as a flat LSB-first bit string; PackedModel.tla enumerates the admissible "
+             "<bit width 1..32, slot type> configurations (an element never spans more than two slots) from which the "
+             "driver's instantiations of varintPacked.h are generated, and explores the sorted layer as a state machine "
+             "(all operation sequences to depth 4/5 keep a sorted multiset). Every element position of a full slot "
+             "period is written/incremented/halved in an isolation layout (all other bits compared) and a tight layout "
+             "(guard page: only the element's slots may be touched); the sorted-layer sequences are replayed on the "
+             "real arrays and judged on the decoded element sequence with the length carried as trace-spec state.",
+        ref="DESIGN.md 4/C09", technique="TLA+ bit-string contract + TLC-enumerated configurations and operation sequences + TLC trace validation of memory images"),
+    "C11": dict(
+        text="BitstreamModel.tla checks the documented high/low split algorithm against the flat MSB-first bit-string "
+             "contract exhaustively for 4-bit words (all contents of 3 words, offsets, widths, values; a wrong-mask "
+             "switch is the negative control). The real header is instantiated for uint64_t and the documented "
+             "uint32_t/uint16_t/uint8_t word types and every (offset mod word, width) pair x value/prior classes is "
+             "run in an isolation layout (every other bit compared) and a tight layout (guard page behind the "
+             "overlapping words); BitstreamTrace.tla judges each image; signed helpers for widths 2..64.",
+        ref="DESIGN.md 4/C11", technique="TLA+ algorithm model checked exhaustively by TLC + TLC trace validation of memory images"),
     "C12": dict(
         text="AddModel.tla is the in-place-add state machine over slot memory; TLC explores all add histories to depth "
              "2 (quick) / 3 (thorough) from every documented length boundary, checks width/isolation invariants, and "
